@@ -178,6 +178,43 @@ def _assigned_names(stmt) -> set:
     return out
 
 
+def fill_loop_as_comprehension(loop: ast.For, env: dict):
+    """`for T in IT: [if C:] ACC.append(E)` with env[ACC] == []   ->  (ACC, [E for T in IT if C])
+       `for T in IT: [if C:] ACC[K] = V`    with env[ACC] == {}   ->  (ACC, {K: V for T in IT if C})
+    with IT, E, K, V, C resolved in `env` (the loop targets shadow).  None for any other loop."""
+    if loop.orelse or len(loop.body) != 1:
+        return None
+    body, conds = loop.body[0], []
+    while isinstance(body, ast.If) and not body.orelse and len(body.body) == 1:
+        conds.append(body.test)
+        body = body.body[0]
+    bound = {n.id for n in ast.walk(loop.target) if isinstance(n, ast.Name)}
+    inner = {k: v for k, v in env.items() if k not in bound}
+    comp = None
+    if isinstance(body, ast.Expr) and isinstance(body.value, ast.Call) and isinstance(body.value.func, ast.Attribute) \
+            and body.value.func.attr == "append" and isinstance(body.value.func.value, ast.Name) and len(body.value.args) == 1 and not body.value.keywords:
+        acc = body.value.func.value.id
+        if acc in bound or not (acc in env and norm(env[acc]) in ("[]", "list()")):
+            return None
+        inner.pop(acc, None)
+        comp = ast.ListComp(elt=resolved(body.value.args[0], inner), generators=[ast.comprehension(
+            target=clone(loop.target), iter=resolved(loop.iter, env), ifs=[resolved(c, inner) for c in conds], is_async=0)])
+    elif isinstance(body, ast.Assign) and len(body.targets) == 1 and isinstance(body.targets[0], ast.Subscript) and isinstance(body.targets[0].value, ast.Name):
+        acc = body.targets[0].value.id
+        if acc in bound or not (acc in env and norm(env[acc]) in ("{}", "dict()")):
+            return None
+        inner.pop(acc, None)
+        comp = ast.DictComp(key=resolved(body.targets[0].slice, inner), value=resolved(body.value, inner), generators=[ast.comprehension(
+            target=clone(loop.target), iter=resolved(loop.iter, env), ifs=[resolved(c, inner) for c in conds], is_async=0)])
+    else:
+        return None
+    # the accumulator must not be read inside its own loop (then it is not a plain comprehension)
+    uses = [n for n in ast.walk(loop) if isinstance(n, ast.Name) and n.id == acc]
+    if len(uses) != 1:
+        return None
+    return acc, ast.fix_missing_locations(comp)
+
+
 def env_at(node: ast.AST, func: ast.AST, keep_params: bool = True, loop_elems: bool = False, opaque=()) -> dict:
     """Resolution environment that holds just before ``node`` executes inside ``func``:
     straight-line assignments on the path from the function entry are applied in order; names
@@ -224,6 +261,15 @@ def env_at(node: ast.AST, func: ast.AST, keep_params: bool = True, loop_elems: b
             for nm in _assigned_names(owner):
                 env.pop(nm, None)
         for s in stmts:
+            if isinstance(s, ast.For):
+                folded = fill_loop_as_comprehension(s, env)
+                if folded is not None:
+                    # `acc = []` + `for T in IT: acc.append(E)` (or `d = {}` + `d[K] = V`) denotes the comprehension
+                    acc, comp = folded
+                    for nm in _assigned_names(s):
+                        env.pop(nm, None)
+                    env[acc] = comp
+                    continue
             if isinstance(s, (ast.If, ast.For, ast.While, ast.With, ast.Try, ast.Match)):
                 for nm in _assigned_names(s):
                     env.pop(nm, None)
